@@ -20,7 +20,7 @@ package crashmonitor
 //@   ensures result1 != nil ==> result0 == ""
 //@   ensures result1 == nil ==> len(result0) <= 4096
 //@   at call EncodeStack#1: assert len(arg0) <= 16 && len(arg0) >= 1 && arg1 == "crash/crash"
-//@   modifies $nopath, $fullname, $child, $rawpc
+//@   modifies $nopath, $fullname, $cutpath, $child, $rawpc
 
 // parseStackPCs is total: no panic on any text, and the scan terminates.
 //@ ghost child int
